@@ -187,6 +187,7 @@ def cleanup():
     global _DIR, _TEMPLATE, _CURRENT, _ROOT
     if _ENGINE is not None:
         _ENGINE.dispose()
+    _force_close_raw()
     _CURRENT = None
     if _DIR is not None and _DIR_PID == os.getpid():
         shutil.rmtree(_DIR, ignore_errors=True)
@@ -282,8 +283,28 @@ def _count_sql(conn, cursor, statement, parameters, context, executemany):
             w.stmt_log.append(statement)
 
 
+_RAW = []  # raw DBAPI connections opened for the current world (this process)
+
+
 def _connect():
-    return sqlite3.connect(os.path.join(scratch_dir(), "w.db"), autocommit=False)
+    c = sqlite3.connect(os.path.join(scratch_dir(), "w.db"), autocommit=False)
+    _RAW.append(c)
+    return c
+
+
+def _force_close_raw():
+    """a Session that could not be closed normally (e.g. after rollback() itself
+    raised) must not keep a lock on the database file of the next replay"""
+    while _RAW:
+        c = _RAW.pop()
+        try:
+            c.rollback()
+        except Exception:  # noqa: BLE001
+            pass
+        try:
+            c.close()
+        except Exception:  # noqa: BLE001
+            pass
 
 
 def _engine():
@@ -316,6 +337,7 @@ class World:
             gc.collect()  # sessions of earlier replays form cycles; gc is disabled by the drivers
         self.engine = _engine()
         self.engine.dispose()
+        _force_close_raw()
         self.path = os.path.join(scratch_dir(), "w.db")
         shutil.copyfile(_template(), self.path)
         for suffix in ("-journal", "-wal"):
@@ -337,7 +359,7 @@ class World:
         self.session = VSession(self.engine, expire_on_commit=cfg.get("eoc", True), autoflush=cfg.get("autoflush", True))
         self.session.info["vf_world"] = self
         self.record_events = cfg.get("record_events", True)
-        self.observer = sqlite3.connect(self.path, isolation_level=None, timeout=0)
+        self.observer = sqlite3.connect(self.path, isolation_level=None, timeout=1.0)
         self.objs = {}  # name -> strong ref
         self.weak = {}  # name -> weakref (all objects ever named)
         self.cls = {}  # name -> class name
@@ -635,6 +657,7 @@ class World:
         except Exception:  # noqa: BLE001
             pass
         self.engine.dispose()
+        _force_close_raw()
         self.closed = True
 
 
@@ -785,21 +808,29 @@ def _pworker(chunk):
     step = make_step(rec)
     out = []
     gc.disable()
+    # watchdog per step: CPU time (a loop in the library) and, far more generous,
+    # wall time (a blocked call); wall time alone misfires on an overloaded box
     signal.signal(signal.SIGALRM, _on_step_alarm)
+    signal.signal(signal.SIGVTALRM, _on_step_alarm)
     try:
         for idx, hist_, ms in chunk:
             for oi, op in enumerate(enabled(ms)):
                 rec.transition()
                 rec.trace()
-                signal.alarm(step_timeout)
+                signal.alarm(step_timeout * 30)
+                signal.setitimer(signal.ITIMER_VIRTUAL, step_timeout)
                 try:
                     res = step(hist_, ms, op)
+                except Exception as e:  # noqa: BLE001 - a harness error: say where
+                    e.add_note("while applying %r after history %r" % (op, hist_))
+                    raise
                 except StepTimeout:
                     tb = traceback.format_exc()
                     sig = core.classify_crash(tb.replace("StepTimeout", "ShardTimeout")) or "hang (no sqlalchemy frame)"
                     rec.violation("%s: %s op=%s" % (prop, sig, op[0]), tb, dict(kind="hang", history=[list(h) for h in hist_], op=list(op)))
                     res = None
                 finally:
+                    signal.setitimer(signal.ITIMER_VIRTUAL, 0)
                     signal.alarm(0)
                 if res is not None:
                     out.append((idx, oi, hist_ + (op,), res[0], res[1]))
